@@ -43,6 +43,9 @@ type gen struct {
 	n    int
 	tier string
 	pfx  string
+	// forceVset overrides the value set of the next arithmetic / comparison program (0 = generator's choice)
+	forceVset int
+	forceLit  string
 }
 
 func (g *gen) emit(steps ...string) {
